@@ -639,7 +639,10 @@ func (client *client) connectWithTimeOut() (ok bool) {
 
 			var connackPpt *packets.Properties
 			if client.version == packets.Version5 {
-				client.opts.MaxInflight = convertUint16(conn.Properties.ReceiveMaximum, client.opts.MaxInflight)
+				// never more than the configured max_inflight, nor than the client's Receive Maximum
+				if rm := conn.Properties.ReceiveMaximum; rm != nil && *rm < client.opts.MaxInflight {
+					client.opts.MaxInflight = *rm
+				}
 				client.opts.ClientMaxPacketSize = convertUint32(conn.Properties.MaximumPacketSize, client.opts.ClientMaxPacketSize)
 				client.opts.ClientTopicAliasMax = convertUint16(conn.Properties.TopicAliasMaximum, client.opts.ClientTopicAliasMax)
 				client.opts.AuthMethod = conn.Properties.AuthMethod
